@@ -393,6 +393,36 @@ pub fn empty_p_history(variant: usize) -> Vec<(String, String)> {
     match res { Ok(v) => v, Err(e) => vec![("update_P_on_empty_P".to_string(), format!("panic: {}", crate::rec_ipm::panic_msg(e)))] }
 }
 
+/// A square A whose stored pattern happens to be upper triangular: a matrix-form update with further entries below the diagonal
+/// has a different pattern and must be refused, leaving A as it was (the upper-triangle convention concerns P only).
+pub fn square_a_history(variant: usize) -> Vec<(String, String)> {
+    let equil = variant % 2 == 0;
+    let res = catch_unwind(AssertUnwindSafe(|| -> Vec<(String, String)> {
+        let mut out = vec![];
+        let P = CscMatrix::new(2, 2, vec![0, 1, 2], vec![0, 1], vec![2.0, 1.0]);
+        let A = CscMatrix::new(2, 2, vec![0, 1, 3], vec![0, 0, 1], vec![1.0, 0.5, 2.0]);          // [[1, .5], [0, 2]]
+        let (q, b) = (vec![-1.0, -1.0], vec![1.0, 3.0]);
+        let cones = [clarabel::solver::SupportedConeT::NonnegativeConeT(2)];
+        let st = || { let mut s = DefaultSettings::<f64>::default(); s.verbose = false; s.equilibrate_enable = equil; s.presolve_enable = false; s };
+        let mut solver = DefaultSolver::new(&P, &q, &A, &b, &cones, st());
+        solver.solve();
+        let full = CscMatrix::new(2, 2, vec![0, 2, 4], vec![0, 1, 0, 1], vec![1.0, 7.0, 0.5, 2.0]);
+        let r = res_name(solver.update_A(&full));
+        if r == "Ok" { out.push(("update_A_square_pattern".to_string(), "update_A with a full 2 x 2 matrix on a solver whose A stores 3 entries (upper triangular pattern) returned Ok".to_string())); }
+        let r2 = res_name(solver.update_data(&Vec::<f64>::new(), &Vec::<f64>::new(), &full, &Vec::<f64>::new()));
+        if r2 == "Ok" { out.push(("update_A_square_pattern".to_string(), "update_data with that matrix for A returned Ok".to_string())); }
+        solver.solve();
+        let mut fresh = DefaultSolver::new(&P, &q, &A, &b, &cones, st());
+        fresh.solve();
+        let (s1, s2) = (&solver.solution, &fresh.solution);
+        if class_of(s1.status) != class_of(s2.status) || (s1.obj_val - s2.obj_val).abs() > 1e-6 * (1.0 + s1.obj_val.abs()) {
+            out.push(("update_A_square_pattern".to_string(), format!("after the refused update the solver ends {:?} ({}) but a fresh solver ends {:?} ({})", s1.status, s1.obj_val, s2.status, s2.obj_val)));
+        }
+        out
+    }));
+    match res { Ok(v) => v, Err(e) => vec![("update_A_square_pattern".to_string(), format!("panic: {}", crate::rec_ipm::panic_msg(e)))] }
+}
+
 /// A history through an overflowed solve: a problem whose cost is ~1e300 ends NumericalError with non-finite iterates
 /// and work vectors; the cost is then repaired through update_q (a sane vector, or another huge one) and the solver is
 /// run again.  The run must be a fresh solver's (this problem has equilibration off: bit for bit).
@@ -642,7 +672,7 @@ pub fn replay_file(path: &str, out: &str, seed: u64, every: usize) -> Value {
             n += 1;
             timed_done = true;
             for (class, m) in inf_bound_history(v as usize) { bad.push(json!({"behaviour": b, "variant": v, "mismatch": m, "class": class})); }
-            for (class, m) in empty_p_history(v as usize) { bad.push(json!({"behaviour": b, "variant": v, "mismatch": m, "class": class})); }
+            for (class, m) in empty_p_history(v as usize).into_iter().chain(square_a_history(v as usize)) { bad.push(json!({"behaviour": b, "variant": v, "mismatch": m, "class": class})); }
             continue;
         }
         if let Some(v) = b.get("overflow").and_then(|x| x.as_u64()) {
@@ -690,7 +720,7 @@ pub fn replay_file(path: &str, out: &str, seed: u64, every: usize) -> Value {
     if !timed_done {
         for v in 0..8usize {
             n += 1;
-            for (class, m) in inf_bound_history(v).into_iter().chain(empty_p_history(v)) {
+            for (class, m) in inf_bound_history(v).into_iter().chain(empty_p_history(v)).chain(square_a_history(v)) {
                 bad.push(json!({"behaviour": {"blocked": "none", "hist": [], "infb": v}, "variant": v, "mismatch": m, "class": class}));
             }
         }
